@@ -731,6 +731,7 @@ class Engine:
         self.query_timeout_ms = 60000
         self.deadline = None
         self.realisations = 0
+        self.forbid_realisation = True
         self.active = False
         self.counter = 0
 
